@@ -93,6 +93,9 @@ def run_variant(v):
   for p in PROPS:
     try:
       ctx = sacheck.run_rules(p, variant, 'quick', 0, quiet=True)
+      if ctx.analysis_errors:
+        problems[p] = 'ANALYSIS-ERROR: ' + '; '.join(ctx.analysis_errors)[:140]
+        continue
       ctx.check_floors()
       fired = sorted({x.rule for x in ctx.violations})
       if fired:
